@@ -281,6 +281,8 @@ def extract(tree):
          or re.search(r"janet_chan_lock\s*\(\s*chan\s*\)\s*;\s*if\s*\(\s*chan->closed\s*\)\s*\{\s*janet_chan_unlock\s*\(\s*chan\s*\)\s*;.*?\}\s*else\s*\{\s*"
                       r"janet_channel_push_with_lock\s*\(\s*chan\s*,\s*make_supervisor_event\s*\(\s*janet_signal_names\[sig\]\s*,\s*task\.fiber\s*,\s*chan->is_threaded\s*\)\s*,\s*2\s*\)\s*;\s*\}", l1, re.S))
         and re.search(r"janet_channel_push\s*\(\s*\(\s*JanetChannel\s*\*\s*\)\s*supervisor\s*,[^;]*,\s*2\s*\)\s*;", go))
+    # informational (not an obligation): a supervisor event for a CLOSED channel is skipped instead of panicking outside any fiber
+    flags["supervisorPushClosedSafe"] = bool(re.search(r"janet_chan_lock\s*\(\s*chan\s*\)\s*;\s*if\s*\(\s*chan->closed\s*\)\s*\{\s*janet_chan_unlock\s*\(\s*chan\s*\)", l1))
     gs = _corefn_body(ev, "cfun_ev_give_supervisor")
     flags["giveSupervisorIsGive"] = bool(re.search(r"if\s*\(\s*janet_channel_push\s*\(\s*chan\s*,[^;]*,\s*0\s*\)\s*\)\s*\{\s*janet_await\s*\(\s*\)\s*;", gs))
     # mode 2 never registers a pending writer: the early return sits before the write_pending push
